@@ -248,7 +248,7 @@ def x_model(mod, prec, kw):
 
 
 OWN = {
-    "C07": {"gsequ", "laqgs", "colorder", "gstrf", "gstrs", "gsrfs", "X:=", "B*=", "create_AA", "pivotgrowth", "langs", "gscon"},
+    "C07": {"gsequ", "laqgs", "colorder", "gstrf", "gstrs", "gsrfs", "X:=", "B*=", "create_AA", "pivotgrowth", "langs", "gscon", "equed:="},
     "C11": {"gsequ", "laqgs", "B*=", "X:=", "equed:=", "A-store"},
     "C12": {"langs", "gscon", "pivotgrowth", "info:="},
     "C13": {"gsrfs", "gstrs"},
